@@ -40,6 +40,8 @@ def _work(task):
         task = _G['tasks'][task]
     fname, label, opts = task
     t0 = time.time()
+    if os.environ.get('VERIF_TRACE_TASKS'):
+        print('  [task] %s [%s] start' % (fname, label), flush=True)
     try:
         mod = _G['mod']
         hooks_cls = _G['hooks_cls']
@@ -56,6 +58,8 @@ def _work(task):
         obs = [ob_record(x) for x in hooks.log if x[0] == 'ob']
         loops = [(x[1], x[2], {k: v for k, v in x[3].items() if k in ('rounds', 'heads', 'backedges', 'exits')})
                  for x in hooks.log if x[0] == 'loop']
+        if os.environ.get('VERIF_TRACE_TASKS'):
+            print('  [task] %s [%s] done in %.1fs' % (fname, label, time.time() - t0), flush=True)
         return {'fn': fname, 'label': label, 'ok': True, 'obs': obs, 'loops': loops, 'extra': extra,
                 'exits': len(outs), 'stats': dict(C.I.ctx.stats), 'wall': time.time() - t0}
     except AnalysisBroken as e:
